@@ -162,6 +162,36 @@ def run_case(case, ctx):
             target = outdir / "out.spdx"
         if target is not None:
             args += ["-o", str(target)]
+        refs = [x for x in recipe["licenses"] if x["id"].startswith("LicenseRef-") and (root / "LICENSES" / x["name"]).is_file()
+                and not (root / "LICENSES" / x["name"]).is_symlink()]
+        if refs and k % 3 == 0:
+            # the text of a LicenseRef- licence cannot be read while the document is written (EIO): a document that claims
+            # success still has the licence with its text - or there is no success
+            from ..monitors import FS
+
+            victim = refs[k // 3 % len(refs)]
+            vpath = str(root / "LICENSES" / victim["name"])
+            hits = {"n": 0}
+
+            def eio(p, hits=hits):
+                hits["n"] += 1
+                return OSError(5, "Input/output error (injected)", p)
+
+            FS.install()
+            FS.fail_open = {vpath: eio, os.path.realpath(vpath): eio}
+            FS.begin()
+            try:
+                rf = run_cli(["--no-multiprocessing", "--root", str(root), "spdx"], cwd=str(root))
+            finally:
+                FS.end()
+                FS.fail_open = {}
+            res.cell("licence-text-read-fault:" + ("not-reached" if not hits["n"] else "refused" if (rf.escaped or rf.exit_code != 0) else "document"))
+            if hits["n"] and not rf.escaped and rf.exit_code == 0:
+                ids = {v for t, v in tv.parse_tv(rf.stdout) if t == "LicenseID"}
+                if victim["id"] not in ids:
+                    res.violation("unreadable-licence-text-silently-left-out", f"the text of {victim['id']} could not be read (injected EIO) and "
+                                  f"`reuse spdx` exits 0 with a document that does not contain the licence", ids=sorted(ids))
+                    return res.out()
         # lint first (does not write), then spdx
         rl = run_cli(["--no-multiprocessing", "--root", str(root), "lint", "--json"], cwd=str(root))
         r = run_cli(args, cwd=cwd)
